@@ -5,252 +5,518 @@ Local Open Scope string_scope.
 
 Definition flow_client_Client : list string :=
   ["if{"; "NewConfig"; "}"; "if{"; "}"; "if{"; "hasPort"; "if{"; "}"; "net.ResolveTCPAddr"; "if{"; "}"; "else{"; "}"; "}"; "if{"; "}"; "handlerSet"; "handlerSet"; "handlerSet"; "time.Now"; "capabilitySet"; "capabilitySet"; "conn.addIntHandlers"; "return"].
+Definition conds_client_Client : list string :=
+  ["cfg == nil"; "cfg.Me == nil || cfg.Me.Nick == """" || cfg.Me.Ident == """""; "cfg.LocalAddr != """""; "!hasPort(cfg.LocalAddr)"; "err == nil"; "cfg.Sasl != nil && !cfg.EnableCapabilityNegotiation"].
+Definition inits_client_Client : list string :=
+  ["Nick: ""__idiot__"""; "cfg: cfg"; "dialer: dialer"; "intHandlers: handlerSet()"; "fgHandlers: handlerSet()"; "bgHandlers: handlerSet()"; "stRemovers: make([]Remover, 0, len(stHandlers))"; "lastsent: time.Now()"; "supportedCaps: capabilitySet()"; "currCaps: capabilitySet()"; "saslRemainingData: nil"].
 Definition flow_client_Conn_Action : list string :=
   ["conn.Ctcp"].
+Definition conds_client_Conn_Action : list string :=
+  [].
 Definition flow_client_Conn_Authenticate : list string :=
   ["conn.Raw"].
+Definition conds_client_Conn_Authenticate : list string :=
+  [].
 Definition flow_client_Conn_Away : list string :=
   ["if{"; "}"; "conn.Raw"].
+Definition conds_client_Conn_Away : list string :=
+  ["msg != """""].
 Definition flow_client_Conn_Cap : list string :=
   ["if{"; "conn.Raw"; "}"; "else{"; "for{"; "splitArgs"; "conn.Raw"; "}"; "}"].
+Definition conds_client_Conn_Cap : list string :=
+  ["len(capabilities) == 0"].
 Definition flow_client_Conn_Close : list string :=
   ["conn.closeIf"; "return"].
+Definition conds_client_Conn_Close : list string :=
+  [].
 Definition flow_client_Conn_Config : list string :=
   ["return"].
+Definition conds_client_Conn_Config : list string :=
+  [].
 Definition flow_client_Conn_Connect : list string :=
   ["conn.ConnectContext"; "context.Background"; "return"].
+Definition conds_client_Conn_Connect : list string :=
+  [].
 Definition flow_client_Conn_ConnectContext : list string :=
   ["conn.internalConnect"; "if{"; "conn.dispatch"; "time.Now"; "}"; "return"].
+Definition conds_client_Conn_ConnectContext : list string :=
+  ["err == nil"].
+Definition inits_client_Conn_ConnectContext : list string :=
+  ["Cmd: REGISTER"; "Time: time.Now()"].
 Definition flow_client_Conn_ConnectTo : list string :=
   ["conn.ConnectToContext"; "context.Background"; "return"].
+Definition conds_client_Conn_ConnectTo : list string :=
+  [].
 Definition flow_client_Conn_ConnectToContext : list string :=
   ["set conn.cfg.Server"; "if{"; "set conn.cfg.Pass"; "}"; "conn.ConnectContext"; "return"].
+Definition conds_client_Conn_ConnectToContext : list string :=
+  ["len(pass) > 0"].
 Definition flow_client_Conn_Connected : list string :=
   ["conn.connectedMu.RLock"; "defer conn.connectedMu.RUnlock"; "return"].
+Definition conds_client_Conn_Connected : list string :=
+  [].
 Definition flow_client_Conn_Ctcp : list string :=
   ["for{"; "splitMessage"; "if{"; "}"; "conn.Raw"; "strings.ToUpper"; "}"].
+Definition conds_client_Conn_Ctcp : list string :=
+  ["s != """""].
 Definition flow_client_Conn_CtcpReply : list string :=
   ["for{"; "splitMessage"; "if{"; "}"; "conn.Raw"; "strings.ToUpper"; "}"].
+Definition conds_client_Conn_CtcpReply : list string :=
+  ["s != """""].
 Definition flow_client_Conn_DisableStateTracking : list string :=
   ["conn.mu.Lock"; "defer conn.mu.Unlock"; "if{"; "conn.st.Me"; "set conn.cfg.Me"; "conn.delSTHandlers"; "conn.st.Wipe"; "set conn.st"; "}"].
+Definition conds_client_Conn_DisableStateTracking : list string :=
+  ["conn.st != nil"].
 Definition flow_client_Conn_EnableStateTracking : list string :=
   ["conn.mu.Lock"; "defer conn.mu.Unlock"; "if{"; "state.NewTracker"; "set conn.st"; "conn.st.NickInfo"; "conn.st.Me"; "set conn.cfg.Me"; "conn.addSTHandlers"; "}"].
+Definition conds_client_Conn_EnableStateTracking : list string :=
+  ["conn.st == nil"].
 Definition flow_client_Conn_Handle : list string :=
   ["conn.fgHandlers.add"; "return"].
+Definition conds_client_Conn_Handle : list string :=
+  [].
 Definition flow_client_Conn_HandleBG : list string :=
   ["conn.bgHandlers.add"; "return"].
+Definition conds_client_Conn_HandleBG : list string :=
+  [].
 Definition flow_client_Conn_HandleFunc : list string :=
   ["conn.Handle"; "return"].
+Definition conds_client_Conn_HandleFunc : list string :=
+  [].
 Definition flow_client_Conn_HasCapability : list string :=
   ["conn.currCaps.Has"; "return"].
+Definition conds_client_Conn_HasCapability : list string :=
+  [].
 Definition flow_client_Conn_Invite : list string :=
   ["conn.Raw"].
+Definition conds_client_Conn_Invite : list string :=
+  [].
 Definition flow_client_Conn_Join : list string :=
   ["if{"; "}"; "conn.Raw"].
+Definition conds_client_Conn_Join : list string :=
+  ["len(key) > 0"].
 Definition flow_client_Conn_Kick : list string :=
   ["if{"; "}"; "conn.Raw"].
+Definition conds_client_Conn_Kick : list string :=
+  ["msg != """""].
 Definition flow_client_Conn_LogPanic : list string :=
   ["recover"; "if{"; "}"].
+Definition conds_client_Conn_LogPanic : list string :=
+  ["err != nil"].
 Definition flow_client_Conn_Me : list string :=
   ["if{"; "conn.st.Me"; "set conn.cfg.Me"; "}"; "return"].
+Definition conds_client_Conn_Me : list string :=
+  ["conn.st != nil"].
 Definition flow_client_Conn_Mode : list string :=
   ["if{"; "}"; "conn.Raw"].
+Definition conds_client_Conn_Mode : list string :=
+  ["mode != """""].
 Definition flow_client_Conn_Nick : list string :=
   ["conn.Raw"].
+Definition conds_client_Conn_Nick : list string :=
+  [].
 Definition flow_client_Conn_Notice : list string :=
   ["for{"; "splitMessage"; "conn.Raw"; "}"].
+Definition conds_client_Conn_Notice : list string :=
+  [].
 Definition flow_client_Conn_Oper : list string :=
   ["conn.Raw"].
+Definition conds_client_Conn_Oper : list string :=
+  [].
 Definition flow_client_Conn_Part : list string :=
   ["if{"; "}"; "conn.Raw"].
+Definition conds_client_Conn_Part : list string :=
+  ["msg != """""].
 Definition flow_client_Conn_Pass : list string :=
   ["conn.Raw"].
+Definition conds_client_Conn_Pass : list string :=
+  [].
 Definition flow_client_Conn_Ping : list string :=
   ["conn.Raw"].
+Definition conds_client_Conn_Ping : list string :=
+  [].
 Definition flow_client_Conn_Pong : list string :=
   ["conn.Raw"].
+Definition conds_client_Conn_Pong : list string :=
+  [].
 Definition flow_client_Conn_Privmsg : list string :=
   ["for{"; "splitMessage"; "conn.Raw"; "}"].
+Definition conds_client_Conn_Privmsg : list string :=
+  [].
 Definition flow_client_Conn_Privmsgf : list string :=
   ["conn.Privmsg"].
+Definition conds_client_Conn_Privmsgf : list string :=
+  [].
 Definition flow_client_Conn_Privmsgln : list string :=
   ["conn.Privmsg"].
+Definition conds_client_Conn_Privmsgln : list string :=
+  [].
 Definition flow_client_Conn_Quit : list string :=
   ["if{"; "}"; "conn.Raw"].
+Definition conds_client_Conn_Quit : list string :=
+  ["msg == """""].
 Definition flow_client_Conn_Raw : list string :=
   ["cutNewLines"; "send conn.out"].
+Definition conds_client_Conn_Raw : list string :=
+  [].
 Definition flow_client_Conn_StateTracker : list string :=
   ["return"].
+Definition conds_client_Conn_StateTracker : list string :=
+  [].
 Definition flow_client_Conn_String : list string :=
   ["conn.Connected"; "if{"; "}"; "else{"; "}"; "conn.Me().String"; "conn.Me"; "if{"; "conn.st.String"; "}"; "return"].
+Definition conds_client_Conn_String : list string :=
+  ["conn.Connected()"; "conn.st != nil"].
 Definition flow_client_Conn_SupportsCapability : list string :=
   ["conn.supportedCaps.Has"; "return"].
+Definition conds_client_Conn_SupportsCapability : list string :=
+  [].
 Definition flow_client_Conn_Topic : list string :=
   ["if{"; "}"; "conn.Raw"].
+Definition conds_client_Conn_Topic : list string :=
+  ["t != """""].
 Definition flow_client_Conn_User : list string :=
   ["conn.Raw"].
+Definition conds_client_Conn_User : list string :=
+  [].
 Definition flow_client_Conn_VHost : list string :=
   ["conn.Raw"].
+Definition conds_client_Conn_VHost : list string :=
+  [].
 Definition flow_client_Conn_Version : list string :=
   ["conn.Ctcp"].
+Definition conds_client_Conn_Version : list string :=
+  [].
 Definition flow_client_Conn_Who : list string :=
   ["conn.Raw"].
+Definition conds_client_Conn_Who : list string :=
+  [].
 Definition flow_client_Conn_Whois : list string :=
   ["conn.Raw"].
+Definition conds_client_Conn_Whois : list string :=
+  [].
 Definition flow_client_Conn_addIntHandlers : list string :=
   ["for{"; "conn.handle"; "}"].
+Definition conds_client_Conn_addIntHandlers : list string :=
+  [].
 Definition flow_client_Conn_addSTHandlers : list string :=
   ["for{"; "conn.handle"; "set conn.stRemovers"; "}"].
+Definition conds_client_Conn_addSTHandlers : list string :=
+  [].
 Definition flow_client_Conn_closeIf : list string :=
   ["conn.mu.Lock"; "if{"; "conn.mu.Unlock"; "return"; "}"; "conn.setConnected"; "conn.sock.Close"; "if{"; "conn.die"; "}"; "go func"; "{"; "conn.wg.Wait"; "close"; "}"; "for{"; "select{"; "case"; "recv conn.in"; "case"; "recv conn.out"; "case"; "recv done"; "}"; "}"; "conn.mu.Unlock"; "conn.dispatch"; "time.Now"; "return"].
+Definition conds_client_Conn_closeIf : list string :=
+  ["!conn.connected || (rw != nil && rw != conn.io)"; "conn.die != nil"; "for !drained"].
+Definition inits_client_Conn_closeIf : list string :=
+  ["Cmd: DISCONNECTED"; "Time: time.Now()"].
 Definition flow_client_Conn_delSTHandlers : list string :=
   ["for{"; "h.Remove"; "}"; "set conn.stRemovers"].
+Definition conds_client_Conn_delSTHandlers : list string :=
+  [].
 Definition flow_client_Conn_dialProxy : list string :=
   ["url.Parse"; "if{"; "return"; "}"; "proxy.FromURL"; "if{"; "return"; "}"; "set conn.proxyDialer"; "if{"; "contextProxyDialer.DialContext"; "return"; "}"; "else{"; "conn.proxyDialer.Dial"; "return"; "}"].
+Definition conds_client_Conn_dialProxy : list string :=
+  ["err != nil"; "err != nil"; "ok"].
 Definition flow_client_Conn_dispatch : list string :=
   ["conn.intHandlers.dispatch"; "go conn.bgHandlers.dispatch"; "conn.fgHandlers.dispatch"].
+Definition conds_client_Conn_dispatch : list string :=
+  [].
 Definition flow_client_Conn_drainIn : list string :=
   ["for{"; "select{"; "case"; "recv conn.in"; "default"; "return"; "}"; "}"].
+Definition conds_client_Conn_drainIn : list string :=
+  [].
 Definition flow_client_Conn_drainOut : list string :=
   ["for{"; "select{"; "case"; "recv conn.out"; "default"; "return"; "}"; "}"].
+Definition conds_client_Conn_drainOut : list string :=
+  [].
 Definition flow_client_Conn_getRequestCapabilities : list string :=
   ["capabilitySet"; "s.Add"; "if{"; "s.Add"; "}"; "s.Add"; "return"].
+Definition conds_client_Conn_getRequestCapabilities : list string :=
+  ["conn.cfg.Sasl != nil"].
 Definition flow_client_Conn_h_001 : list string :=
   ["defer conn.dispatch"; "time.Now"; "conn.Me"; "line.Target"; "line.Text"; "strings.LastIndex"; "if{"; "}"; "parseUserHost"; "if{"; "}"; "if{"; "if{"; "conn.st.NickInfo"; "}"; "conn.st.ReNick"; "if{"; "set conn.cfg.Me"; "}"; "}"; "else{"; "set conn.cfg.Me.Nick"; "if{"; "set conn.cfg.Me.Ident"; "set conn.cfg.Me.Host"; "}"; "}"].
+Definition conds_client_Conn_h_001 : list string :=
+  ["idx != -1"; "me.Nick != nick"; "conn.st != nil"; "ok"; "n != nil"; "ok"].
+Definition inits_client_Conn_h_001 : list string :=
+  ["Cmd: CONNECTED"; "Time: time.Now()"].
 Definition flow_client_Conn_h_311 : list string :=
   ["line.argslen"; "if{"; "return"; "}"; "conn.st.GetNick"; "conn.Me().Equals"; "conn.Me"; "if{"; "conn.st.NickInfo"; "}"; "else{"; "}"].
+Definition conds_client_Conn_h_311 : list string :=
+  ["!line.argslen(5)"; "(nk != nil) && !conn.Me().Equals(nk)"].
 Definition flow_client_Conn_h_324 : list string :=
   ["line.argslen"; "if{"; "return"; "}"; "conn.st.GetChannel"; "if{"; "conn.st.ChannelModes"; "}"; "else{"; "}"].
+Definition conds_client_Conn_h_324 : list string :=
+  ["!line.argslen(2)"; "ch != nil"].
 Definition flow_client_Conn_h_332 : list string :=
   ["line.argslen"; "if{"; "return"; "}"; "conn.st.GetChannel"; "if{"; "conn.st.Topic"; "}"; "else{"; "}"].
+Definition conds_client_Conn_h_332 : list string :=
+  ["!line.argslen(2)"; "ch != nil"].
 Definition flow_client_Conn_h_352 : list string :=
   ["line.argslen"; "if{"; "return"; "}"; "conn.st.GetNick"; "if{"; "return"; "}"; "conn.Me().Equals"; "conn.Me"; "if{"; "return"; "}"; "strings.SplitN"; "conn.st.NickInfo"; "line.argslen"; "if{"; "return"; "}"; "strings.Index"; "if{"; "conn.st.NickModes"; "}"; "strings.Index"; "if{"; "conn.st.NickModes"; "}"; "strings.Index"; "if{"; "conn.st.NickModes"; "}"].
+Definition conds_client_Conn_h_352 : list string :=
+  ["!line.argslen(5)"; "nk == nil"; "conn.Me().Equals(nk)"; "!line.argslen(6)"; "idx != -1"; "idx != -1"; "idx != -1"].
 Definition flow_client_Conn_h_353 : list string :=
   ["line.argslen"; "if{"; "return"; "}"; "conn.st.GetChannel"; "if{"; "strings.Split"; "for{"; "if{"; "}"; "switch{"; "case"; "case"; "conn.st.GetNick"; "if{"; "conn.st.NewNick"; "}"; "conn.st.IsOn"; "if{"; "conn.st.Associate"; "}"; "switch{"; "case"; "conn.st.ChannelModes"; "case"; "conn.st.ChannelModes"; "case"; "conn.st.ChannelModes"; "case"; "conn.st.ChannelModes"; "case"; "conn.st.ChannelModes"; "}"; "}"; "}"; "}"; "else{"; "}"].
+Definition conds_client_Conn_h_353 : list string :=
+  ["!line.argslen(2)"; "ch != nil"; "nick == """""; "conn.st.GetNick(nick) == nil"; "!ok"].
 Definition flow_client_Conn_h_410 : list string :=
+  [].
+Definition conds_client_Conn_h_410 : list string :=
   [].
 Definition flow_client_Conn_h_433 : list string :=
   ["conn.Me"; "conn.cfg.NewNick"; "conn.Nick"; "line.argslen"; "if{"; "return"; "}"; "if{"; "if{"; "conn.st.ReNick"; "if{"; "set conn.cfg.Me"; "}"; "}"; "else{"; "set conn.cfg.Me.Nick"; "}"; "}"].
+Definition conds_client_Conn_h_433 : list string :=
+  ["!line.argslen(1)"; "line.Args[1] == me.Nick"; "conn.st != nil"; "n != nil"].
 Definition flow_client_Conn_h_671 : list string :=
   ["line.argslen"; "if{"; "return"; "}"; "conn.st.GetNick"; "if{"; "conn.st.NickModes"; "}"; "else{"; "}"].
+Definition conds_client_Conn_h_671 : list string :=
+  ["!line.argslen(1)"; "nk != nil"].
 Definition flow_client_Conn_h_903 : list string :=
   ["conn.Cap"].
+Definition conds_client_Conn_h_903 : list string :=
+  [].
 Definition flow_client_Conn_h_904 : list string :=
   ["conn.Cap"].
+Definition conds_client_Conn_h_904 : list string :=
+  [].
 Definition flow_client_Conn_h_908 : list string :=
   ["conn.Cap"].
+Definition conds_client_Conn_h_908 : list string :=
+  [].
 Definition flow_client_Conn_h_AUTHENTICATE : list string :=
   ["if{"; "return"; "}"; "if{"; "if{"; "base64.StdEncoding.EncodeToString"; "}"; "conn.Authenticate"; "set conn.saslRemainingData"; "return"; "}"; "base64.StdEncoding.DecodeString"; "if{"; "return"; "}"; "conn.cfg.Sasl.Next"; "if{"; "return"; "}"; "base64.StdEncoding.EncodeToString"; "conn.Authenticate"].
+Definition conds_client_Conn_h_AUTHENTICATE : list string :=
+  ["conn.cfg.Sasl == nil"; "conn.saslRemainingData != nil"; "len(conn.saslRemainingData) > 0"; "err != nil"; "err != nil"].
 Definition flow_client_Conn_h_CAP : list string :=
   ["strings.Fields"; "line.Text"; "switch{"; "case"; "conn.negotiateCapabilities"; "case"; "conn.handleCapAck"; "case"; "conn.handleCapNak"; "}"].
+Definition conds_client_Conn_h_CAP : list string :=
+  [].
 Definition flow_client_Conn_h_CTCP : list string :=
   ["if{"; "conn.CtcpReply"; "}"; "else{"; "line.argslen"; "if{"; "conn.CtcpReply"; "}"; "}"].
+Definition conds_client_Conn_h_CTCP : list string :=
+  ["line.Args[0] == VERSION"; "line.Args[0] == PING && line.argslen(2)"].
 Definition flow_client_Conn_h_JOIN : list string :=
   ["conn.st.GetChannel"; "conn.st.GetNick"; "if{"; "conn.Me().Equals"; "conn.Me"; "if{"; "return"; "}"; "conn.st.NewChannel"; "conn.Mode"; "conn.Who"; "}"; "if{"; "conn.st.NewNick"; "conn.st.NickInfo"; "conn.Who"; "}"; "conn.st.Associate"].
+Definition conds_client_Conn_h_JOIN : list string :=
+  ["ch == nil"; "!conn.Me().Equals(nk)"; "nk == nil"].
 Definition flow_client_Conn_h_KICK : list string :=
   ["line.argslen"; "if{"; "return"; "}"; "conn.st.Dissociate"].
+Definition conds_client_Conn_h_KICK : list string :=
+  ["!line.argslen(1)"].
 Definition flow_client_Conn_h_MODE : list string :=
   ["line.argslen"; "if{"; "return"; "}"; "conn.st.GetChannel"; "if{"; "conn.st.ChannelModes"; "}"; "else{"; "conn.st.GetNick"; "if{"; "conn.Me().Equals"; "conn.Me"; "if{"; "return"; "}"; "conn.st.NickModes"; "}"; "else{"; "}"; "}"].
+Definition conds_client_Conn_h_MODE : list string :=
+  ["!line.argslen(1)"; "ch != nil"; "nk != nil"; "!conn.Me().Equals(nk)"].
 Definition flow_client_Conn_h_NICK : list string :=
   ["if{"; "set conn.cfg.Me.Nick"; "}"].
+Definition conds_client_Conn_h_NICK : list string :=
+  ["conn.st == nil && line.Nick == conn.cfg.Me.Nick"].
 Definition flow_client_Conn_h_PART : list string :=
   ["conn.st.Dissociate"].
+Definition conds_client_Conn_h_PART : list string :=
+  [].
 Definition flow_client_Conn_h_PING : list string :=
   ["conn.Pong"].
+Definition conds_client_Conn_h_PING : list string :=
+  [].
 Definition flow_client_Conn_h_QUIT : list string :=
   ["conn.st.DelNick"].
+Definition conds_client_Conn_h_QUIT : list string :=
+  [].
 Definition flow_client_Conn_h_REGISTER : list string :=
   ["if{"; "conn.Cap"; "}"; "if{"; "conn.Pass"; "}"; "conn.Nick"; "conn.User"].
+Definition conds_client_Conn_h_REGISTER : list string :=
+  ["conn.cfg.EnableCapabilityNegotiation"; "conn.cfg.Pass != """""].
 Definition flow_client_Conn_h_STNICK : list string :=
   ["conn.st.ReNick"].
+Definition conds_client_Conn_h_STNICK : list string :=
+  [].
 Definition flow_client_Conn_h_TOPIC : list string :=
   ["line.argslen"; "if{"; "return"; "}"; "conn.st.GetChannel"; "if{"; "conn.st.Topic"; "}"; "else{"; "}"].
+Definition conds_client_Conn_h_TOPIC : list string :=
+  ["!line.argslen(1)"; "ch != nil"].
 Definition flow_client_Conn_handle : list string :=
   ["conn.intHandlers.add"; "return"].
+Definition conds_client_Conn_handle : list string :=
+  [].
 Definition flow_client_Conn_handleCapAck : list string :=
   ["for{"; "conn.currCaps.Add"; "if{"; "conn.cfg.Sasl.Start"; "if{"; "}"; "set conn.saslRemainingData"; "conn.Authenticate"; "}"; "}"; "if{"; "conn.Cap"; "}"].
+Definition conds_client_Conn_handleCapAck : list string :=
+  ["conn.cfg.Sasl != nil && cap == saslCap"; "err != nil"; "!gotSasl"].
 Definition flow_client_Conn_handleCapNak : list string :=
   ["conn.Cap"].
+Definition conds_client_Conn_handleCapNak : list string :=
+  [].
 Definition flow_client_Conn_initialise : list string :=
   ["set conn.io"; "set conn.sock"; "set conn.in"; "set conn.out"; "set conn.die"; "if{"; "conn.st.Wipe"; "}"].
+Definition conds_client_Conn_initialise : list string :=
+  ["conn.st != nil"].
 Definition flow_client_Conn_internalConnect : list string :=
   ["conn.mu.Lock"; "defer conn.mu.Unlock"; "if{"; "return"; "}"; "if{"; "return"; "}"; "conn.initialise"; "hasPort"; "if{"; "if{"; "net.JoinHostPort"; "set conn.cfg.Server"; "}"; "else{"; "net.JoinHostPort"; "set conn.cfg.Server"; "}"; "}"; "if{"; "conn.dialProxy"; "if{"; "return"; "}"; "set conn.sock"; "}"; "else{"; "conn.dialer.DialContext"; "if{"; "set conn.sock"; "}"; "else{"; "return"; "}"; "}"; "if{"; "tls.Client"; "s.Handshake"; "if{"; "return"; "}"; "set conn.sock"; "}"; "conn.postConnect"; "conn.setConnected"; "return"].
+Definition conds_client_Conn_internalConnect : list string :=
+  ["conn.cfg.Server == """""; "conn.connected"; "!hasPort(conn.cfg.Server)"; "conn.cfg.SSL"; "conn.cfg.Proxy != """""; "err != nil"; "err == nil"; "conn.cfg.SSL"; "err != nil"].
 Definition flow_client_Conn_negotiateCapabilities : list string :=
   ["conn.supportedCaps.Add"; "conn.getRequestCapabilities"; "reqCaps.Intersect"; "reqCaps.Size"; "if{"; "conn.Cap"; "reqCaps.Slice"; "}"; "else{"; "conn.Cap"; "}"].
+Definition conds_client_Conn_negotiateCapabilities : list string :=
+  ["reqCaps.Size() > 0"].
 Definition flow_client_Conn_ping : list string :=
   ["defer conn.wg.Done"; "time.NewTicker"; "for{"; "select{"; "case"; "recv tick.C"; "conn.Ping"; "time.Now().UnixNano"; "time.Now"; "case"; "ctx.Done"; "recv ctx.Done()"; "tick.Stop"; "return"; "}"; "}"].
+Definition conds_client_Conn_ping : list string :=
+  [].
 Definition flow_client_Conn_postConnect : list string :=
   ["bufio.NewReadWriter"; "bufio.NewReader"; "bufio.NewWriter"; "set conn.io"; "if{"; "context.WithCancel"; "set conn.die"; "conn.wg.Add"; "go conn.send"; "go conn.recv"; "go conn.runLoop"; "if{"; "conn.wg.Add"; "go conn.ping"; "}"; "go func"; "{"; "ctx.Done"; "recv ctx.Done()"; "conn.closeIf"; "}"; "}"].
+Definition conds_client_Conn_postConnect : list string :=
+  ["start"; "conn.cfg.PingFreq > 0"].
 Definition flow_client_Conn_rateLimit : list string :=
   ["time.Now().Sub"; "time.Now"; "set conn.badness"; "if{"; "set conn.badness"; "}"; "time.Now"; "set conn.lastsent"; "if{"; "return"; "}"; "return"].
+Definition conds_client_Conn_rateLimit : list string :=
+  ["conn.badness < 0"; "conn.badness > 10*time.Second"].
 Definition flow_client_Conn_recv : list string :=
   ["for{"; "rw.ReadString"; "if{"; "if{"; "err.Error"; "}"; "conn.wg.Done"; "conn.closeIf"; "return"; "}"; "strings.Trim"; "ParseLine"; "if{"; "time.Now"; "send conn.in"; "}"; "else{"; "}"; "}"].
+Definition conds_client_Conn_recv : list string :=
+  ["err != nil"; "err != io.EOF"; "line != nil"].
 Definition flow_client_Conn_runLoop : list string :=
   ["for{"; "select{"; "case"; "recv conn.in"; "conn.dispatch"; "case"; "ctx.Done"; "recv ctx.Done()"; "conn.wg.Done"; "conn.closeIf"; "return"; "}"; "}"].
+Definition conds_client_Conn_runLoop : list string :=
+  [].
 Definition flow_client_Conn_send : list string :=
   ["for{"; "select{"; "case"; "recv conn.out"; "conn.write"; "if{"; "err.Error"; "conn.wg.Done"; "conn.closeIf"; "return"; "}"; "case"; "ctx.Done"; "recv ctx.Done()"; "conn.wg.Done"; "return"; "}"; "}"].
+Definition conds_client_Conn_send : list string :=
+  ["err != nil"].
 Definition flow_client_Conn_setConnected : list string :=
   ["conn.connectedMu.Lock"; "set conn.connected"; "conn.connectedMu.Unlock"].
+Definition conds_client_Conn_setConnected : list string :=
+  [].
 Definition flow_client_Conn_write : list string :=
   ["if{"; "conn.rateLimit"; "if{"; "t.Seconds"; "time.After"; "recv time.After(t)"; "}"; "}"; "conn.io.WriteString"; "if{"; "return"; "}"; "conn.io.Flush"; "if{"; "return"; "}"; "strings.HasPrefix"; "if{"; "}"; "return"].
+Definition conds_client_Conn_write : list string :=
+  ["!conn.cfg.Flood"; "t != 0"; "err != nil"; "err != nil"; "strings.HasPrefix(line, ""PASS"")"].
 Definition flow_client_DefaultNewNick : list string :=
   ["if{"; "return"; "}"; "switch{"; "case"; "case"; "case"; "}"; "return"].
+Definition conds_client_DefaultNewNick : list string :=
+  ["len(old) == 0"].
 Definition flow_client_HandlerFunc_Handle : list string :=
   ["hf"].
+Definition conds_client_HandlerFunc_Handle : list string :=
+  [].
 Definition flow_client_Line_Copy : list string :=
   ["if{"; "for{"; "}"; "}"; "return"].
+Definition conds_client_Line_Copy : list string :=
+  ["l.Tags != nil"].
 Definition flow_client_Line_Public : list string :=
   ["switch{"; "case"; "if{"; "return"; "}"; "switch{"; "case"; "return"; "}"; "case"; "if{"; "return"; "}"; "switch{"; "case"; "return"; "}"; "}"; "return"].
+Definition conds_client_Line_Public : list string :=
+  ["len(line.Args) < 1 || line.Args[0] == """""; "len(line.Args) < 2 || line.Args[1] == """""].
 Definition flow_client_Line_Target : list string :=
   ["switch{"; "case"; "line.Public"; "if{"; "return"; "}"; "case"; "line.Public"; "if{"; "return"; "}"; "return"; "}"; "if{"; "return"; "}"; "return"].
+Definition conds_client_Line_Target : list string :=
+  ["!line.Public()"; "!line.Public()"; "len(line.Args) > 0"].
 Definition flow_client_Line_Text : list string :=
   ["if{"; "return"; "}"; "return"].
+Definition conds_client_Line_Text : list string :=
+  ["len(line.Args) > 0"].
 Definition flow_client_Line_argslen : list string :=
   ["if{"; "fn.Name"; "return"; "}"; "return"].
+Definition conds_client_Line_argslen : list string :=
+  ["len(line.Args) <= minlen"].
 Definition flow_client_NewConfig : list string :=
   ["if{"; "}"; "if{"; "}"; "return"].
+Definition conds_client_NewConfig : list string :=
+  ["len(args) > 0 && args[0] != """""; "len(args) > 1 && args[1] != """""].
+Definition inits_client_NewConfig : list string :=
+  ["Me: &state.Nick{Nick: nick}"; "PingFreq: 3 * time.Minute"; "NewNick: DefaultNewNick"; "Recover: (*Conn).LogPanic"; "SplitLen: defaultSplit"; "Timeout: 60 * time.Second"; "EnableCapabilityNegotiation: false"; "Nick: nick"].
 Definition flow_client_ParseLine : list string :=
   ["if{"; "return"; "}"; "if{"; "strings.Index"; "if{"; "}"; "else{"; "return"; "}"; "for{"; "strings.Split"; "if{"; "}"; "strings.SplitN"; "tagsReplacer.Replace"; "if{"; "}"; "else{"; "}"; "}"; "}"; "if{"; "return"; "}"; "if{"; "strings.Index"; "if{"; "}"; "else{"; "return"; "}"; "parseUserHost"; "if{"; "}"; "}"; "strings.SplitN"; "strings.Fields"; "if{"; "return"; "}"; "if{"; "}"; "else{"; "}"; "strings.ToUpper"; "if{"; "}"; "strings.HasPrefix"; "strings.HasSuffix"; "if{"; "strings.SplitN"; "strings.Trim"; "if{"; "}"; "strings.ToUpper"; "if{"; "}"; "else{"; "if{"; "}"; "else{"; "}"; "}"; "}"; "return"].
+Definition conds_client_ParseLine : list string :=
+  ["s == """""; "s[0] == '@'"; "idx != -1"; "tag == """""; "len(pair) < 2"; "s == """""; "s[0] == ':'"; "idx != -1"; "ok"; "len(fields) == 0"; "len(args) > 1"; "len(args) > 1"; "(line.Cmd == PRIVMSG || line.Cmd == NOTICE) && len(line.Args) > 1 && len(line.Args[1]) > 2 && strings.HasPrefix(line.Args[1], ""\001"") && strings.HasSuffix(line.Args[1], ""\001"")"; "len(t) > 1"; "c == ACTION && line.Cmd == PRIVMSG"; "line.Cmd == PRIVMSG"].
+Definition inits_client_ParseLine : list string :=
+  ["Raw: s"].
 Definition flow_client_SimpleClient : list string :=
   ["Client"; "NewConfig"; "return"].
+Definition conds_client_SimpleClient : list string :=
+  [].
 Definition flow_client_capSet_Add : list string :=
   ["c.mu.Lock"; "for{"; "strings.HasPrefix"; "if{"; "}"; "else{"; "}"; "}"; "c.mu.Unlock"].
+Definition conds_client_capSet_Add : list string :=
+  ["strings.HasPrefix(cap, ""-"")"].
 Definition flow_client_capSet_Has : list string :=
   ["c.mu.RLock"; "defer c.mu.RUnlock"; "return"].
+Definition conds_client_capSet_Has : list string :=
+  [].
 Definition flow_client_capSet_Intersect : list string :=
   ["c.mu.Lock"; "for{"; "other.Has"; "if{"; "}"; "}"; "c.mu.Unlock"].
+Definition conds_client_capSet_Intersect : list string :=
+  ["!other.Has(cap)"].
 Definition flow_client_capSet_Size : list string :=
   ["c.mu.RLock"; "defer c.mu.RUnlock"; "return"].
+Definition conds_client_capSet_Size : list string :=
+  [].
 Definition flow_client_capSet_Slice : list string :=
   ["c.mu.RLock"; "defer c.mu.RUnlock"; "for{"; "}"; "sort.Strings"; "return"].
+Definition conds_client_capSet_Slice : list string :=
+  [].
 Definition flow_client_capabilitySet : list string :=
   ["return"].
+Definition conds_client_capabilitySet : list string :=
+  [].
+Definition inits_client_capabilitySet : list string :=
+  ["caps: make(map[string]bool)"].
 Definition flow_client_cutNewLines : list string :=
   ["strings.SplitN"; "strings.SplitN"; "return"].
+Definition conds_client_cutNewLines : list string :=
+  [].
 Definition flow_client_hNode_Handle : list string :=
   ["defer conn.cfg.Recover"; "hn.handler.Handle"].
+Definition conds_client_hNode_Handle : list string :=
+  [].
 Definition flow_client_hNode_Remove : list string :=
   ["hn.set.remove"].
+Definition conds_client_hNode_Remove : list string :=
+  [].
 Definition flow_client_hSet_add : list string :=
   ["hs.Lock"; "defer hs.Unlock"; "strings.ToLower"; "if{"; "}"; "if{"; "}"; "else{"; "}"; "return"].
+Definition conds_client_hSet_add : list string :=
+  ["!ok"; "!ok"].
+Definition inits_client_hSet_add : list string :=
+  ["set: hs"; "event: ev"; "handler: h"].
 Definition flow_client_hSet_dispatch : list string :=
   ["strings.ToLower"; "for{"; "hs.getHandlers"; "wg.Add"; "go func"; "{"; "hn.Handle"; "line.Copy"; "wg.Done"; "}"; "}"; "wg.Wait"].
+Definition conds_client_hSet_dispatch : list string :=
+  [].
 Definition flow_client_hSet_getHandlers : list string :=
   ["hs.RLock"; "defer hs.RUnlock"; "if{"; "return"; "}"; "for{"; "}"; "return"].
+Definition conds_client_hSet_getHandlers : list string :=
+  ["!ok"; "for hn != nil"].
 Definition flow_client_hSet_remove : list string :=
   ["hs.Lock"; "defer hs.Unlock"; "if{"; "return"; "}"; "if{"; "}"; "else{"; "}"; "if{"; "}"; "else{"; "}"; "if{"; "}"].
+Definition conds_client_hSet_remove : list string :=
+  ["!ok"; "hn.next == nil"; "hn.prev == nil"; "l.start == nil || l.end == nil"].
 Definition flow_client_handlerSet : list string :=
   ["return"].
+Definition conds_client_handlerSet : list string :=
+  [].
+Definition inits_client_handlerSet : list string :=
+  ["set: make(map[string]*hList)"].
 Definition flow_client_hasPort : list string :=
   ["strings.LastIndex"; "strings.LastIndex"; "return"].
+Definition conds_client_hasPort : list string :=
+  [].
 Definition flow_client_indexFragment : list string :=
   ["for{"; "strings.LastIndex"; "if{"; "}"; "}"; "if{"; "return"; "}"; "strings.LastIndex"; "if{"; "return"; "}"; "return"].
+Definition conds_client_indexFragment : list string :=
+  ["idx > max"; "max > 0"; "idx > 0"].
 Definition flow_client_parseUserHost : list string :=
   ["strings.TrimSpace"; "strings.Index"; "strings.Index"; "if{"; "return"; "}"; "return"].
+Definition conds_client_parseUserHost : list string :=
+  ["uidx == -1 || nidx == -1 || nidx > uidx"].
 Definition flow_client_splitArgs : list string :=
   ["for{"; "for{"; "}"; "}"; "return"].
+Definition conds_client_splitArgs : list string :=
+  ["for i < len(args)"; "for i < len(args) && len(currArg)+len(args[i])+1 < maxLen"].
 Definition flow_client_splitMessage : list string :=
   ["if{"; "}"; "for{"; "indexFragment"; "if{"; "}"; "}"; "return"].
+Definition conds_client_splitMessage : list string :=
+  ["splitLen < 13"; "for len(msg) > splitLen"; "idx < 0"].
 
 Definition chan_sends_client : list (string * string) :=
   [("Conn.Raw", "conn.out"); ("Conn.recv", "conn.in")].
@@ -263,176 +529,360 @@ Definition cfg_uses_client : list (string * string) :=
 
 Definition flow_state_ChanMode_Copy : list string :=
   ["if{"; "return"; "}"; "return"].
+Definition conds_state_ChanMode_Copy : list string :=
+  ["cm == nil"].
 Definition flow_state_ChanMode_Equals : list string :=
   ["reflect.DeepEqual"; "return"].
+Definition conds_state_ChanMode_Equals : list string :=
+  [].
 Definition flow_state_ChanMode_String : list string :=
   ["if{"; "return"; "}"; "reflect.Indirect"; "reflect.ValueOf"; "v.Type"; "for{"; "v.NumField"; "v.Field"; "f.Kind"; "switch{"; "case"; "f.Bool"; "if{"; "t.Field"; "}"; "case"; "f.String"; "if{"; "t.Field"; "f.String"; "}"; "case"; "f.Int"; "if{"; "t.Field"; "strconv.FormatInt"; "f.Int"; "}"; "}"; "}"; "for{"; "if{"; "}"; "}"; "if{"; "}"; "return"].
+Definition conds_state_ChanMode_String : list string :=
+  ["cm == nil"; "for i < v.NumField()"; "f.Bool()"; "f.String() != """""; "f.Int() != 0"; "s != """""; "str == ""+"""].
 Definition flow_state_ChanPrivs_Copy : list string :=
   ["if{"; "return"; "}"; "return"].
+Definition conds_state_ChanPrivs_Copy : list string :=
+  ["cp == nil"].
 Definition flow_state_ChanPrivs_Equals : list string :=
   ["reflect.DeepEqual"; "return"].
+Definition conds_state_ChanPrivs_Equals : list string :=
+  [].
 Definition flow_state_ChanPrivs_String : list string :=
   ["if{"; "return"; "}"; "reflect.Indirect"; "reflect.ValueOf"; "v.Type"; "for{"; "v.NumField"; "v.Field"; "f.Kind"; "switch{"; "case"; "f.Bool"; "if{"; "t.Field"; "}"; "}"; "}"; "if{"; "}"; "return"].
+Definition conds_state_ChanPrivs_String : list string :=
+  ["cp == nil"; "for i < v.NumField()"; "f.Bool()"; "str == ""+"""].
 Definition flow_state_Channel_Equals : list string :=
   ["reflect.DeepEqual"; "return"].
+Definition conds_state_Channel_Equals : list string :=
+  [].
 Definition flow_state_Channel_IsOn : list string :=
   ["return"].
+Definition conds_state_Channel_IsOn : list string :=
+  [].
 Definition flow_state_Channel_String : list string :=
   ["ch.Modes.String"; "for{"; "cp.String"; "}"; "return"].
+Definition conds_state_Channel_String : list string :=
+  [].
 Definition flow_state_MockTracker_Associate : list string :=
   ["_m.ctrl.Call"; "return"].
+Definition conds_state_MockTracker_Associate : list string :=
+  [].
 Definition flow_state_MockTracker_ChannelModes : list string :=
   ["for{"; "}"; "_m.ctrl.Call"; "return"].
+Definition conds_state_MockTracker_ChannelModes : list string :=
+  [].
 Definition flow_state_MockTracker_DelChannel : list string :=
   ["_m.ctrl.Call"; "return"].
+Definition conds_state_MockTracker_DelChannel : list string :=
+  [].
 Definition flow_state_MockTracker_DelNick : list string :=
   ["_m.ctrl.Call"; "return"].
+Definition conds_state_MockTracker_DelNick : list string :=
+  [].
 Definition flow_state_MockTracker_Dissociate : list string :=
   ["_m.ctrl.Call"].
+Definition conds_state_MockTracker_Dissociate : list string :=
+  [].
 Definition flow_state_MockTracker_EXPECT : list string :=
   ["return"].
+Definition conds_state_MockTracker_EXPECT : list string :=
+  [].
 Definition flow_state_MockTracker_GetChannel : list string :=
   ["_m.ctrl.Call"; "return"].
+Definition conds_state_MockTracker_GetChannel : list string :=
+  [].
 Definition flow_state_MockTracker_GetNick : list string :=
   ["_m.ctrl.Call"; "return"].
+Definition conds_state_MockTracker_GetNick : list string :=
+  [].
 Definition flow_state_MockTracker_IsOn : list string :=
   ["_m.ctrl.Call"; "return"].
+Definition conds_state_MockTracker_IsOn : list string :=
+  [].
 Definition flow_state_MockTracker_Me : list string :=
   ["_m.ctrl.Call"; "return"].
+Definition conds_state_MockTracker_Me : list string :=
+  [].
 Definition flow_state_MockTracker_NewChannel : list string :=
   ["_m.ctrl.Call"; "return"].
+Definition conds_state_MockTracker_NewChannel : list string :=
+  [].
 Definition flow_state_MockTracker_NewNick : list string :=
   ["_m.ctrl.Call"; "return"].
+Definition conds_state_MockTracker_NewNick : list string :=
+  [].
 Definition flow_state_MockTracker_NickInfo : list string :=
   ["_m.ctrl.Call"; "return"].
+Definition conds_state_MockTracker_NickInfo : list string :=
+  [].
 Definition flow_state_MockTracker_NickModes : list string :=
   ["_m.ctrl.Call"; "return"].
+Definition conds_state_MockTracker_NickModes : list string :=
+  [].
 Definition flow_state_MockTracker_ReNick : list string :=
   ["_m.ctrl.Call"; "return"].
+Definition conds_state_MockTracker_ReNick : list string :=
+  [].
 Definition flow_state_MockTracker_String : list string :=
   ["_m.ctrl.Call"; "return"].
+Definition conds_state_MockTracker_String : list string :=
+  [].
 Definition flow_state_MockTracker_Topic : list string :=
   ["_m.ctrl.Call"; "return"].
+Definition conds_state_MockTracker_Topic : list string :=
+  [].
 Definition flow_state_MockTracker_Wipe : list string :=
   ["_m.ctrl.Call"].
+Definition conds_state_MockTracker_Wipe : list string :=
+  [].
 Definition flow_state_NewMockTracker : list string :=
   ["return"].
+Definition conds_state_NewMockTracker : list string :=
+  [].
+Definition inits_state_NewMockTracker : list string :=
+  ["ctrl: ctrl"].
 Definition flow_state_NewTracker : list string :=
   ["newNick"; "return"].
+Definition conds_state_NewTracker : list string :=
+  [].
+Definition inits_state_NewTracker : list string :=
+  ["chans: make(map[string]*channel)"; "nicks: make(map[string]*nick)"].
 Definition flow_state_Nick_Equals : list string :=
   ["reflect.DeepEqual"; "return"].
+Definition conds_state_Nick_Equals : list string :=
+  [].
 Definition flow_state_Nick_IsOn : list string :=
   ["return"].
+Definition conds_state_Nick_IsOn : list string :=
+  [].
 Definition flow_state_Nick_String : list string :=
   ["nk.Modes.String"; "for{"; "cp.String"; "}"; "return"].
+Definition conds_state_Nick_String : list string :=
+  [].
 Definition flow_state_NickMode_Copy : list string :=
   ["if{"; "return"; "}"; "return"].
+Definition conds_state_NickMode_Copy : list string :=
+  ["nm == nil"].
 Definition flow_state_NickMode_Equals : list string :=
   ["reflect.DeepEqual"; "return"].
+Definition conds_state_NickMode_Equals : list string :=
+  [].
 Definition flow_state_NickMode_String : list string :=
   ["if{"; "return"; "}"; "reflect.Indirect"; "reflect.ValueOf"; "v.Type"; "for{"; "v.NumField"; "v.Field"; "f.Kind"; "switch{"; "case"; "f.Bool"; "if{"; "t.Field"; "}"; "}"; "}"; "if{"; "}"; "return"].
+Definition conds_state_NickMode_String : list string :=
+  ["nm == nil"; "for i < v.NumField()"; "f.Bool()"; "str == ""+"""].
 Definition flow_state__MockTrackerRecorder_Associate : list string :=
   ["_mr.mock.ctrl.RecordCall"; "return"].
+Definition conds_state__MockTrackerRecorder_Associate : list string :=
+  [].
 Definition flow_state__MockTrackerRecorder_ChannelModes : list string :=
   ["_mr.mock.ctrl.RecordCall"; "return"].
+Definition conds_state__MockTrackerRecorder_ChannelModes : list string :=
+  [].
 Definition flow_state__MockTrackerRecorder_DelChannel : list string :=
   ["_mr.mock.ctrl.RecordCall"; "return"].
+Definition conds_state__MockTrackerRecorder_DelChannel : list string :=
+  [].
 Definition flow_state__MockTrackerRecorder_DelNick : list string :=
   ["_mr.mock.ctrl.RecordCall"; "return"].
+Definition conds_state__MockTrackerRecorder_DelNick : list string :=
+  [].
 Definition flow_state__MockTrackerRecorder_Dissociate : list string :=
   ["_mr.mock.ctrl.RecordCall"; "return"].
+Definition conds_state__MockTrackerRecorder_Dissociate : list string :=
+  [].
 Definition flow_state__MockTrackerRecorder_GetChannel : list string :=
   ["_mr.mock.ctrl.RecordCall"; "return"].
+Definition conds_state__MockTrackerRecorder_GetChannel : list string :=
+  [].
 Definition flow_state__MockTrackerRecorder_GetNick : list string :=
   ["_mr.mock.ctrl.RecordCall"; "return"].
+Definition conds_state__MockTrackerRecorder_GetNick : list string :=
+  [].
 Definition flow_state__MockTrackerRecorder_IsOn : list string :=
   ["_mr.mock.ctrl.RecordCall"; "return"].
+Definition conds_state__MockTrackerRecorder_IsOn : list string :=
+  [].
 Definition flow_state__MockTrackerRecorder_Me : list string :=
   ["_mr.mock.ctrl.RecordCall"; "return"].
+Definition conds_state__MockTrackerRecorder_Me : list string :=
+  [].
 Definition flow_state__MockTrackerRecorder_NewChannel : list string :=
   ["_mr.mock.ctrl.RecordCall"; "return"].
+Definition conds_state__MockTrackerRecorder_NewChannel : list string :=
+  [].
 Definition flow_state__MockTrackerRecorder_NewNick : list string :=
   ["_mr.mock.ctrl.RecordCall"; "return"].
+Definition conds_state__MockTrackerRecorder_NewNick : list string :=
+  [].
 Definition flow_state__MockTrackerRecorder_NickInfo : list string :=
   ["_mr.mock.ctrl.RecordCall"; "return"].
+Definition conds_state__MockTrackerRecorder_NickInfo : list string :=
+  [].
 Definition flow_state__MockTrackerRecorder_NickModes : list string :=
   ["_mr.mock.ctrl.RecordCall"; "return"].
+Definition conds_state__MockTrackerRecorder_NickModes : list string :=
+  [].
 Definition flow_state__MockTrackerRecorder_ReNick : list string :=
   ["_mr.mock.ctrl.RecordCall"; "return"].
+Definition conds_state__MockTrackerRecorder_ReNick : list string :=
+  [].
 Definition flow_state__MockTrackerRecorder_String : list string :=
   ["_mr.mock.ctrl.RecordCall"; "return"].
+Definition conds_state__MockTrackerRecorder_String : list string :=
+  [].
 Definition flow_state__MockTrackerRecorder_Topic : list string :=
   ["_mr.mock.ctrl.RecordCall"; "return"].
+Definition conds_state__MockTrackerRecorder_Topic : list string :=
+  [].
 Definition flow_state__MockTrackerRecorder_Wipe : list string :=
   ["_mr.mock.ctrl.RecordCall"; "return"].
+Definition conds_state__MockTrackerRecorder_Wipe : list string :=
+  [].
 Definition flow_state_channel_Channel : list string :=
   ["ch.modes.Copy"; "for{"; "cp.Copy"; "}"; "return"].
+Definition conds_state_channel_Channel : list string :=
+  [].
+Definition inits_state_channel_Channel : list string :=
+  ["Name: ch.name"; "Topic: ch.topic"; "Modes: ch.modes.Copy()"; "Nicks: make(map[string]*ChanPrivs)"].
 Definition flow_state_channel_String : list string :=
   ["ch.Channel().String"; "ch.Channel"; "return"].
+Definition conds_state_channel_String : list string :=
+  [].
 Definition flow_state_channel_addNick : list string :=
   ["if{"; "}"; "else{"; "}"].
+Definition conds_state_channel_addNick : list string :=
+  ["!ok"].
 Definition flow_state_channel_delNick : list string :=
   ["if{"; "}"; "else{"; "}"].
+Definition conds_state_channel_delNick : list string :=
+  ["ok"].
 Definition flow_state_channel_isOn : list string :=
   ["cp.Copy"; "return"].
+Definition conds_state_channel_isOn : list string :=
+  [].
 Definition flow_state_channel_parseModes : list string :=
   ["for{"; "switch{"; "case"; "case"; "case"; "case"; "case"; "case"; "case"; "case"; "case"; "case"; "case"; "case"; "case"; "if{"; "}"; "else{"; "if{"; "}"; "else{"; "}"; "}"; "case"; "if{"; "strconv.Atoi"; "}"; "else{"; "if{"; "}"; "else{"; "}"; "}"; "case"; "if{"; "}"; "case"; "if{"; "if{"; "switch{"; "case"; "case"; "case"; "case"; "case"; "}"; "}"; "else{"; "}"; "}"; "else{"; "}"; "case"; "}"; "}"].
+Definition conds_state_channel_parseModes : list string :=
+  ["for i < len(modes)"; "modeop && len(modeargs) != 0"; "!modeop"; "modeop && len(modeargs) != 0"; "!modeop"; "len(modeargs) != 0"; "len(modeargs) != 0"; "ok"].
 Definition flow_state_init : list string :=
   ["for{"; "}"].
+Definition conds_state_init : list string :=
+  [].
 Definition flow_state_newChannel : list string :=
   ["return"].
+Definition conds_state_newChannel : list string :=
+  [].
+Definition inits_state_newChannel : list string :=
+  ["name: name"; "modes: new(ChanMode)"; "nicks: make(map[*nick]*ChanPrivs)"; "lookup: make(map[string]*nick)"].
 Definition flow_state_newNick : list string :=
   ["return"].
+Definition conds_state_newNick : list string :=
+  [].
+Definition inits_state_newNick : list string :=
+  ["nick: n"; "modes: new(NickMode)"; "chans: make(map[*channel]*ChanPrivs)"; "lookup: make(map[string]*channel)"].
 Definition flow_state_nick_Nick : list string :=
   ["nk.modes.Copy"; "for{"; "cp.Copy"; "}"; "return"].
+Definition conds_state_nick_Nick : list string :=
+  [].
+Definition inits_state_nick_Nick : list string :=
+  ["Nick: nk.nick"; "Ident: nk.ident"; "Host: nk.host"; "Name: nk.name"; "Modes: nk.modes.Copy()"; "Channels: make(map[string]*ChanPrivs, len(nk.chans))"].
 Definition flow_state_nick_String : list string :=
   ["nk.Nick().String"; "nk.Nick"; "return"].
+Definition conds_state_nick_String : list string :=
+  [].
 Definition flow_state_nick_addChannel : list string :=
   ["if{"; "}"; "else{"; "}"].
+Definition conds_state_nick_addChannel : list string :=
+  ["!ok"].
 Definition flow_state_nick_delChannel : list string :=
   ["if{"; "}"; "else{"; "}"].
+Definition conds_state_nick_delChannel : list string :=
+  ["ok"].
 Definition flow_state_nick_isOn : list string :=
   ["cp.Copy"; "return"].
+Definition conds_state_nick_isOn : list string :=
+  [].
 Definition flow_state_nick_parseModes : list string :=
   ["for{"; "switch{"; "case"; "case"; "case"; "case"; "case"; "case"; "case"; "case"; "case"; "}"; "}"].
+Definition conds_state_nick_parseModes : list string :=
+  ["for i < len(modes)"].
 Definition flow_state_stateTracker_Associate : list string :=
   ["st.mu.Lock"; "defer st.mu.Unlock"; "if{"; "return"; "}"; "else{"; "if{"; "return"; "}"; "else{"; "nk.isOn"; "if{"; "return"; "}"; "}"; "}"; "ch.addNick"; "nk.addChannel"; "cp.Copy"; "return"].
+Definition conds_state_stateTracker_Associate : list string :=
+  ["!cok"; "!nok"; "ok"].
 Definition flow_state_stateTracker_ChannelModes : list string :=
   ["st.mu.Lock"; "defer st.mu.Unlock"; "if{"; "return"; "}"; "ch.parseModes"; "ch.Channel"; "return"].
+Definition conds_state_stateTracker_ChannelModes : list string :=
+  ["!ok"].
 Definition flow_state_stateTracker_DelChannel : list string :=
   ["st.mu.Lock"; "defer st.mu.Unlock"; "if{"; "st.delChannel"; "ch.Channel"; "return"; "}"; "return"].
+Definition conds_state_stateTracker_DelChannel : list string :=
+  ["ok"].
 Definition flow_state_stateTracker_DelNick : list string :=
   ["st.mu.Lock"; "defer st.mu.Unlock"; "if{"; "if{"; "return"; "}"; "st.delNick"; "nk.Nick"; "return"; "}"; "return"].
+Definition conds_state_stateTracker_DelNick : list string :=
+  ["ok"; "nk == st.me"].
 Definition flow_state_stateTracker_Dissociate : list string :=
   ["st.mu.Lock"; "defer st.mu.Unlock"; "if{"; "}"; "else{"; "if{"; "}"; "else{"; "nk.isOn"; "if{"; "}"; "else{"; "if{"; "st.delChannel"; "}"; "else{"; "ch.delNick"; "nk.delChannel"; "if{"; "st.delNick"; "}"; "}"; "}"; "}"; "}"].
+Definition conds_state_stateTracker_Dissociate : list string :=
+  ["!cok"; "!nok"; "!ok"; "nk == st.me"; "len(nk.chans) == 0"].
 Definition flow_state_stateTracker_GetChannel : list string :=
   ["st.mu.Lock"; "defer st.mu.Unlock"; "if{"; "ch.Channel"; "return"; "}"; "return"].
+Definition conds_state_stateTracker_GetChannel : list string :=
+  ["ok"].
 Definition flow_state_stateTracker_GetNick : list string :=
   ["st.mu.Lock"; "defer st.mu.Unlock"; "if{"; "nk.Nick"; "return"; "}"; "return"].
+Definition conds_state_stateTracker_GetNick : list string :=
+  ["ok"].
 Definition flow_state_stateTracker_IsOn : list string :=
   ["st.mu.Lock"; "defer st.mu.Unlock"; "if{"; "nk.isOn"; "return"; "}"; "return"].
+Definition conds_state_stateTracker_IsOn : list string :=
+  ["nok && cok"].
 Definition flow_state_stateTracker_Me : list string :=
   ["st.mu.Lock"; "defer st.mu.Unlock"; "st.me.Nick"; "return"].
+Definition conds_state_stateTracker_Me : list string :=
+  [].
 Definition flow_state_stateTracker_NewChannel : list string :=
   ["if{"; "return"; "}"; "st.mu.Lock"; "defer st.mu.Unlock"; "if{"; "return"; "}"; "newChannel"; "st.chans[c].Channel"; "return"].
+Definition conds_state_stateTracker_NewChannel : list string :=
+  ["c == """""; "ok"].
 Definition flow_state_stateTracker_NewNick : list string :=
   ["if{"; "return"; "}"; "st.mu.Lock"; "defer st.mu.Unlock"; "if{"; "return"; "}"; "newNick"; "st.nicks[n].Nick"; "return"].
+Definition conds_state_stateTracker_NewNick : list string :=
+  ["n == """""; "ok"].
 Definition flow_state_stateTracker_NickInfo : list string :=
   ["st.mu.Lock"; "defer st.mu.Unlock"; "if{"; "return"; "}"; "nk.Nick"; "return"].
+Definition conds_state_stateTracker_NickInfo : list string :=
+  ["!ok"].
 Definition flow_state_stateTracker_NickModes : list string :=
   ["st.mu.Lock"; "defer st.mu.Unlock"; "if{"; "return"; "}"; "nk.parseModes"; "nk.Nick"; "return"].
+Definition conds_state_stateTracker_NickModes : list string :=
+  ["!ok"].
 Definition flow_state_stateTracker_ReNick : list string :=
   ["st.mu.Lock"; "defer st.mu.Unlock"; "if{"; "return"; "}"; "if{"; "return"; "}"; "for{"; "}"; "nk.Nick"; "return"].
+Definition conds_state_stateTracker_ReNick : list string :=
+  ["!ok"; "ok"].
 Definition flow_state_stateTracker_String : list string :=
   ["st.mu.Lock"; "defer st.mu.Unlock"; "for{"; "ch.String"; "}"; "for{"; "if{"; "n.String"; "}"; "}"; "return"].
+Definition conds_state_stateTracker_String : list string :=
+  ["n != st.me"].
 Definition flow_state_stateTracker_Topic : list string :=
   ["st.mu.Lock"; "defer st.mu.Unlock"; "if{"; "return"; "}"; "ch.Channel"; "return"].
+Definition conds_state_stateTracker_Topic : list string :=
+  ["!ok"].
 Definition flow_state_stateTracker_Wipe : list string :=
   ["st.mu.Lock"; "defer st.mu.Unlock"; "for{"; "st.delChannel"; "}"].
+Definition conds_state_stateTracker_Wipe : list string :=
+  [].
 Definition flow_state_stateTracker_delChannel : list string :=
   ["for{"; "ch.delNick"; "nk.delChannel"; "if{"; "st.delNick"; "}"; "}"].
+Definition conds_state_stateTracker_delChannel : list string :=
+  ["len(nk.chans) == 0 && nk != st.me"].
 Definition flow_state_stateTracker_delNick : list string :=
   ["if{"; "return"; "}"; "for{"; "nk.delChannel"; "ch.delNick"; "if{"; "}"; "}"].
+Definition conds_state_stateTracker_delNick : list string :=
+  ["nk == st.me"; "len(ch.nicks) == 0"].
 
 Definition chan_sends_state : list (string * string) :=
   [].
